@@ -38,7 +38,7 @@ ASSUMPTIONS = ["associativity only where the classes at one nested position are 
                "not asserted: __fields_set__ of results; ignore_invalid=True"]
 REQUIRED_CLASSES = {"all": ["falsy_leaf", "nested_both_sides", "origin_json", "origin_yaml", "origin_loader", "origin_complete",
                             "origin_harvester", "conflict_raises", "overwrite_later_wins", "assoc_checked", "roundtrip_complete",
-                            "installed", "generated"]}
+                            "installed", "generated", "cross_class_operand"]}
 BUDGET_S = {"quick": 900, "thorough": 3 * 3600}
 
 
@@ -373,6 +373,69 @@ def _show(c, n=400):
         return repr(c)[:n]
 
 
+def plain(c):
+    """Converted value without the class tags (the same data held by a parent-class and a child-class partial)."""
+    k = c[0]
+    if k == "M":
+        return ("M", {f: plain(v) for f, v in c[1].items()})
+    if k in ("L", "S", "T"):
+        return (k, [plain(e) for e in c[1]])
+    return c
+
+
+def check_cross_class(cls, recipes, overwrite, rec=None):
+    """Partials of a parent schema (also results of a merge) used as operands of the child schema's partial:
+    nothing they provide may get lost when they are cast to the child's partial class."""
+    parent = next((c for c in cls.__mro__[1:] if isinstance(c, type) and issubclass(c, BaseModel) and
+                   getattr(c, "__fields__", None) and hasattr(c, "Partial") and c.__name__ not in ("MetadataSchema", "SchemaBase", "LDSchema")), None)
+    if parent is None:
+        return
+    try:
+        PP, PC = parent.Partial, cls.Partial
+    except Exception:  # noqa: BLE001
+        return
+    pf = {f.alias for f in parent.__fields__.values()} | set(parent.__fields__)
+    try:
+        pa = PP.parse_obj(G.realize({k: v for k, v in recipes[0].items() if k in pf}))
+        pb = PP.parse_obj(G.realize({k: v for k, v in recipes[1].items() if k in pf}))
+        pc = PC.parse_obj(G.realize(recipes[2]))
+    except (ValidationError, ValueError, TypeError):
+        return
+    try:
+        m = PP.merge(pa, pb, allow_overwrite=True)
+    except Exception as e:  # noqa: BLE001
+        raise Violation(f"C14:merge-raises:{type(e).__name__}", f"parent-class merge: {str(e)[:200]}", "merge")
+    vm = vals(m)
+    for what, obj in (("merge result", m), ("parsed partial", pa)):
+        vo = vals(obj)
+        try:
+            casted = PC.cast(obj)
+            via_merge = PC.merge(PC(), obj, allow_overwrite=True)
+            right = PC.merge(pc, obj, allow_overwrite=True)
+        except ValueError:
+            continue
+        except Exception as e:  # noqa: BLE001
+            raise Violation(f"C14:cross-class-merge-raises:{type(e).__name__}", f"{what} of {parent.__name__}.Partial as operand of "
+                            f"{cls.__name__}.Partial: {str(e)[:200]}", "accepted (child partial is compatible)")
+        for how, got in (("cast", casted), ("merge(empty, x)", via_merge)):
+            # (the two classes may parse nested dicts into different models and carry different constants, so only
+            # presence of every provided field and equality of plain scalar values are required)
+            vg = vals(got)[1]
+            lost = sorted(k for k in vo[1] if k not in vg)
+            changed = sorted(k for k in vo[1] if k in vg and vo[1][k][0] == "V" and not isinstance(vo[1][k][1], dict) and vg[k][0] == "V"
+                             and not _veq(vo[1][k], vg[k]))
+            if lost or changed:
+                lost = lost + ["changed:" + c for c in changed]
+                raise Violation("C14:cross-class-cast-loses-values", f"{how} of a {what} of {parent.__name__}.Partial to {cls.__name__}.Partial "
+                                f"lost {lost}: {_show(vo)} -> {_show(vals(got))}", "all provided values kept")
+        lost = sorted(k for k in vo[1] if k not in vals(right)[1])
+        if lost:
+            raise Violation("C14:cross-class-merge-loses-values", f"merge(child partial, {what} of the parent partial) lost the fields {lost}",
+                            "every provided field present in the result")
+    if rec is not None:
+        rec.case(classes=["cross_class_operand"])
+
+
 def check_roundtrip(cls, recipe, rec=None):
     try:
         o = cls.parse_obj(G.realize(recipe))
@@ -434,6 +497,7 @@ def run_case(case, rec=None):
     elif case["mode"] == "independent":
         origins = list(case["origins"])
         check_triple(cls, case["recipes"], origins, case["overwrite"], "independent", rec, sample)
+        check_cross_class(cls, case["recipes"], case["overwrite"], rec)
     elif case["mode"] == "harvester":
         from metador_core.harvester.common import FileMetaHarvester
 
